@@ -847,7 +847,30 @@ func (e *CoreExtension) testSameAs(value interface{}, args ...interface{}) (bool
 	if len(args) == 0 {
 		return false, errors.New("same_as test requires an argument")
 	}
-	return value == args[0], nil
+	return sameValue(value, args[0]), nil
+}
+
+// sameValue is Go's == on interface values, except that values of types that cannot be
+// compared (slices, maps, functions, structs holding them) are the same only if they are
+// the very same object
+func sameValue(a, b interface{}) bool {
+	if a == nil || b == nil {
+		return a == nil && b == nil
+	}
+	av, bv := reflect.ValueOf(a), reflect.ValueOf(b)
+	if av.Type() != bv.Type() {
+		return false
+	}
+	if av.Comparable() && bv.Comparable() {
+		return a == b
+	}
+	switch av.Kind() {
+	case reflect.Slice:
+		return av.Len() == bv.Len() && av.Pointer() == bv.Pointer()
+	case reflect.Map, reflect.Func:
+		return av.Pointer() == bv.Pointer()
+	}
+	return false
 }
 
 func (e *CoreExtension) testDivisibleBy(value interface{}, args ...interface{}) (bool, error) {
